@@ -10,6 +10,7 @@ import (
 	"regexp"
 	"strings"
 
+	"github.com/JunNishimura/Goit/internal/object"
 	"github.com/JunNishimura/Goit/internal/sha"
 	"github.com/spf13/cobra"
 )
@@ -55,6 +56,14 @@ var updateRefCmd = &cobra.Command{
 			return ErrInvalidHash
 		}
 
+		// a branch may only point to a commit
+		newObject, err := object.GetObject(client.RootGoitPath, newHash)
+		if err != nil {
+			return fmt.Errorf("fatal: cannot read object %s: %w", hashString, err)
+		}
+		if newObject.Type != object.CommitObject {
+			return fmt.Errorf("fatal: trying to write non-commit object %s to branch '%s'", hashString, args[0])
+		}
 		if err := client.Refs.UpdateBranchHash(client.RootGoitPath, branchName, newHash); err != nil {
 			return fmt.Errorf("fail to update reference %s: %w", args[0], err)
 		}
